@@ -187,7 +187,17 @@ def build(case, named_subset=True):
         m = (models.Unilateral.trinary if tri else models.Unilateral.binary)(g, max_time=mt)
     elif cls == "Bilateral":
         ctor = models.Bilateral.trinary if tri else models.Bilateral.binary
-        m = ctor(g, is_symmetric={"tumor_spread": cfg["symT"], "lnl_spread": cfg["symL"]}, uni_kwargs={"max_time": mt})
+        extra = {}
+        if case.get("contra_relist"):
+            # the contralateral side gets the SAME graph with the LNLs (and every LNL's connection list) in reverse order;
+            # tumour entries stay where they are, so the reported (tumour) parameters keep their order (R6-C11-m1)
+            ents = [list(e) for e in case["graph"]["entries"]]
+            pos = [k for k, e in enumerate(ents) if e[0] == "lnl"]
+            rev = [[e[0], e[1], list(e[2])[::-1]] for e in (ents[k] for k in pos)][::-1]
+            for k, e in zip(pos, rev):
+                ents[k] = e
+            extra["contra_kwargs"] = {"graph_dict": gen.graph_dict({"base": case["graph"]["base"], "entries": ents})}
+        m = ctor(g, is_symmetric={"tumor_spread": cfg["symT"], "lnl_spread": cfg["symL"]}, uni_kwargs={"max_time": mt}, **extra)
     elif cls == "Midline":
         ctor = models.Midline.trinary if tri else models.Midline.binary
         m = ctor(g, is_symmetric={"lnl_spread": cfg["symL"]}, use_mixing=cfg["use_mixing"],
